@@ -23,6 +23,11 @@ func (vc *VC) fieldComp(st types.Type, idx int) (comp string, ft types.Type) {
 	if lo, hi, _, _, ok := intRange(ft); ok {
 		vc.w.compRange[comp] = [2]*big.Int{lo, hi}
 	}
+	if kindOf(ft) == KRef {
+		if _, isSig := ft.Underlying().(*types.Signature); !isSig {
+			vc.w.compRefLike[comp] = true
+		}
+	}
 	return
 }
 
@@ -297,10 +302,18 @@ func (vc *VC) knownRef(h *Heap, term string) string {
 func (vc *VC) knownRefT(h *Heap, term string, t types.Type) string {
 	vc.compDecl(compAlloc, sortInt)
 	size := int64(1)
+	isStructPtr := false
 	if p, ok := t.Underlying().(*types.Pointer); ok {
 		size = structSize(p.Elem())
+		_, isStructPtr = p.Elem().Underlying().(*types.Struct)
 	}
-	return sLe(sAdd(term, sNum(size)), vc.hgetScalar(h, compAlloc))
+	a := vc.hgetScalar(h, compAlloc)
+	if isStructPtr {
+		// a struct-typed slice element (negative address) belongs to an
+		// array that exists
+		return sAnd(sLe(sAdd(term, sNum(size)), a), sOr(sLe("0", term), vc.existedAt(term, a)))
+	}
+	return sLe(sAdd(term, sNum(size)), a)
 }
 
 // typeFacts returns the assumptions that hold for any value of Go type t
